@@ -6,6 +6,7 @@
   This file: definitions, the per-endpoint transformers, `killPipe` / `killPipes` / `startPipe`.
 -/
 import NngModel.Proofs.LifePipe
+import NngModel.Generated.C14
 namespace Nng.LifeModel
 open Nng.Life Nng.Generated
 
